@@ -39,6 +39,8 @@ def auto_checks(patch):
                 out |= set(v.split())
     return sorted(out) or ["C14"]
 src = "/tmp/refac_%s" % g
+if not os.path.isdir(src):
+    src = "/verif/harmless/%s" % g  # regression run on the stored patches
 wt = "/tmp/refacrun_%s" % g
 subprocess.run(["git", "-C", "/repo", "worktree", "add", "--detach", wt, "HEAD"], capture_output=True)
 os.makedirs("/verif/harmless/%s" % g, exist_ok=True)
@@ -48,7 +50,8 @@ try:
         p = "%s/patch_%d.diff" % (src, i)
         if not os.path.exists(p):
             continue
-        shutil.copy(p, "/verif/harmless/%s/patch_%d.diff" % (g, i))
+        if not p.startswith("/verif/harmless/"):
+            shutil.copy(p, "/verif/harmless/%s/patch_%d.diff" % (g, i))
         subprocess.run(["git", "-C", wt, "checkout", "-q", "--", "EasyFEA"])
         if subprocess.run(["git", "-C", wt, "apply", p], capture_output=True).returncode != 0:
             print(g, i, "patch does not apply"); continue
@@ -71,6 +74,6 @@ try:
                 print(g, i, c, "ALARM", keys, flush=True)
         res.append({"patch": "%s/patch_%d.diff" % (g, i), "checks": row})
         print(g, i, "done", {c: r["rc"] for c, r in row.items()}, flush=True)
-    json.dump(res, open("/verif/harmless/%s/results.json" % g, "w"), indent=1)
+    json.dump(res, open("/verif/harmless/%s/%s" % (g, os.environ.get("REFAC_RESULTS", "results.json")), "w"), indent=1)
 finally:
     subprocess.run(["git", "-C", "/repo", "worktree", "remove", "--force", wt], capture_output=True)
